@@ -12,3 +12,5 @@ RULES = {"C10.a", "C10.b", "C10.c", "C01.e", "C04.c", "C09.a"}
 def check(ctx):
     ctx.assume("offsets passed to set_offset/with_offset lie on character boundaries (property quantifier)")
     cursor.analyze(ctx, RULES)
+    from .common import cache_foundation
+    cache_foundation(ctx)
